@@ -26,6 +26,7 @@ What is a site (one row per syntactic occurrence):
                     value (e.g. to fmin_l_bfgs_b): the argument cannot be verified
   rng-method        <rng>.randint/rand/choice/... on an explicit generator object seeded
   seed-call         <expr>.seed(<expr>)  (ConfigSpace seeding)                    seeded
+  seed-kw           f(..., seed=<expr>)  (a seed handed to an external library)   seeded
   hash              hash(<expr>)                                                  hashSeed
   set-order         for/list()/tuple()/next(iter())/enumerate()/join/pop over a   hashSeed
                     set-valued expression (set(...), {..}, set-comprehension,
@@ -471,6 +472,12 @@ class _FileScan(ast.NodeVisitor):
                 # next(iter(S)) is reported once, on the inner iter(S)
                 self.add(node, "set-order", "hashSeed", f"{name}() over a set-valued expression")
 
+        # f(..., seed=<expr>): an external library is handed a seed (pymoo's minimize)
+        sk = self._kw(node, "seed")
+        if sk is not None and not handled_rng_param and not (isinstance(sk, ast.Constant) and sk.value is None) \
+                and not (isinstance(f, ast.Name) and f.id == "check_random_state"):
+            self.add(node, "seed-kw", "seeded", f"seed={_txt(sk, 50)}" + self._param_note(sk))
+
         # attribute-call consumers such as np.array(S), pd.Series(S)
         if isinstance(f, ast.Attribute) and f.attr in ("array", "asarray", "Series", "DataFrame") and node.args and self.set_valued(node.args[0]):
             self.add(node, "set-order", "hashSeed", f"{f.attr}() over a set-valued expression")
@@ -587,6 +594,28 @@ def _no_text(src: Path, globs, pattern):
     return True, ""
 
 
+def _lbfgs_args_end_with_rng(src: Path):
+    """guard: every call `f(gaussian_acquisition_1D, x, args=(...))` in optimizer.py passes a tuple that fills all parameters of
+    gaussian_acquisition_1D after X, the last one (random_state) with self.rng"""
+    opt = ast.parse((src / "deephyper/skopt/optimizer/optimizer.py").read_text())
+    acq = ast.parse((src / "deephyper/skopt/acquisition.py").read_text())
+    fn = next((n for n in acq.body if isinstance(n, ast.FunctionDef) and n.name == "gaussian_acquisition_1D"), None)
+    if fn is None:
+        return False, "gaussian_acquisition_1D not found"
+    params = [a.arg for a in fn.args.args]
+    if "random_state" not in params:
+        return False, "gaussian_acquisition_1D has no random_state parameter"
+    need = params.index("random_state")  # number of parameters between X and random_state, plus one
+    found = 0
+    for node in ast.walk(opt):
+        if isinstance(node, ast.Call) and node.args and isinstance(node.args[0], ast.Name) and node.args[0].id == "gaussian_acquisition_1D":
+            found += 1
+            tup = next((k.value for k in node.keywords if k.arg == "args"), None)
+            if not isinstance(tup, ast.Tuple) or len(tup.elts) != need or ast.unparse(tup.elts[-1]) != "self.rng":
+                return False, f"args tuple at line {node.lineno} does not end with self.rng on the random_state slot"
+    return (found > 0, "" if found else "no call passes gaussian_acquisition_1D as a value")
+
+
 def _both(a, b):
     return (a[0] and b[0], a[1] or b[1])
 
@@ -601,7 +630,7 @@ def _has_text(src: Path, file, pattern):
 REACH_RULES = [
     # ---- the stack proper -------------------------------------------------------------------------------
     dict(name="mes-sampling", file="skopt/acquisition.py", func="gaussian_mes", kind="rvs-*",
-         reach="live", conds=[("acq", ["MES", "MESd"])],
+         reach="live", conds=[("search", ["CBO"]), ("acq", ["MES", "MESd"])],
          why="gaussian_mes is called from _gaussian_acquisition only for acq_func MES / MESd (CBO acq_func option)"),
     dict(name="optimizer-sample-subsampling", file="skopt/optimizer/optimizer.py", func="Optimizer._sample", kind="np-global",
          reach="unreachable",
@@ -636,8 +665,22 @@ REACH_RULES = [
     dict(name="space-yaml-first-key", file="skopt/space/space.py", func="Space.from_yaml", kind="*",
          reach="unreachable", why="Space.from_yaml is not called by any search class (dicts keep insertion order anyway)",
          guard=lambda src: _no_text(src, ["hpo/*.py", "skopt/optimizer/*.py"], r"from_yaml")),
+    dict(name="pymoo-seed", file="skopt/optimizer/optimizer.py", func="Optimizer._tell", kind="seed-kw", text=r"minimize\(",
+         reach="live", conds=[("search", ["CBO"]), ("acq_opt", ["ga", "mixedga"])],
+         why="pymoo.optimize.minimize(seed=self.rng.randint(..)): pymoo reseeds the process-global NumPy generator with this seed and "
+             "draws from it — a function of the root stream, but it overwrites the global generator (the harness does not expect the "
+             "global NumPy state to be untouched for these configurations)"),
+    dict(name="skopt-plots", file="skopt/plots.py", func="*", kind="*", reach="unreachable",
+         why="plotting helpers; not called by the search classes",
+         guard=lambda src: _no_text(src, ["hpo/*.py", "skopt/optimizer/optimizer.py"], r"skopt\.plots|from \.\.?plots")),
+    dict(name="lbfgs-args-tuple", file="skopt/optimizer/optimizer.py", func="Optimizer._tell", kind="rng-func-ref",
+         text=r"gaussian_acquisition_1D", reach="noFlow", stream="seeded",
+         why="fmin_l_bfgs_b(gaussian_acquisition_1D, x, args=(...)): the args tuple ends with self.rng, which lands on the wrapper's "
+             "random_state parameter (guard, on the AST: the tuple has exactly the wrapper's 6 parameters after X and its last "
+             "element is self.rng)",
+         guard=lambda src: _lbfgs_args_end_with_rng(src)),
     dict(name="mes-threading", file="skopt/*", func="*", kind="rng-*", text=r"gaussian_mes|_gaussian_acquisition|gaussian_acquisition_1D",
-         reach="live", conds=[("acq", ["MES", "MESd"])],
+         reach="live", conds=[("search", ["CBO"]), ("acq", ["MES", "MESd"])],
          why="the generator argument of the acquisition wrappers only matters for the sampling acquisition MES / MESd"),
     dict(name="cook-estimator-set-params", file="skopt/utils.py", func="cook_estimator", kind="rng-param-omitted",
          reach="noFlow", stream="seeded",
